@@ -8,7 +8,8 @@ def claim(pid, technique, text, note, ref):
 
 NOTE = ('Trusted: rustc nightly MIR construction/type resolution, the mirfacts fact model, the rule code, the spec/ tables '
         '(hand-transcribed from the OTP docs), API summaries of external crates (nom, bytes, tokio, flate2, dashmap). '
-        'Decides structural clauses only; value-level behaviour, schedules and histories are not decided.')
+        'Decides structural clauses only; value-level behaviour, schedules and histories are not decided. Rules added after the first build (seeded-change rounds), '
+        'including the rules of other properties that each check re-runs as dependencies (map-key order, atom interning tables, allocator, handshake, control table ...), are listed in DESIGN.md section 10.')
 
 claim('C08',
       'dispatch-table extraction from resolved MIR matches (enum discriminants, TryFrom<u8>, from_term, to_term, into_term) compared with each other and with spec/control_messages.json; interval-guarded CAST and index obligations',
